@@ -49,20 +49,14 @@ Ltac edge_inv E :=
   vm_compute in I;
   repeat (destruct I as [I|I]; [subst x; vm_compute in M|]); try destruct I.
 
-Lemma ex_dia_edges : forall n m, edge fs_dia cwd_x n m ->
+Lemma ex_dia_edges : forall n m, n = pa \/ n = pb \/ n = pc -> edge fs_dia cwd_x n m ->
   (n = pa /\ m = pb) \/ (n = pb /\ m = pc).
 Proof.
-  intros n m E.
-  assert (K: n = pa \/ n = pb \/ n = pc \/ (forall o, fs_get fs_dia n <> Ok o)).
-  { destruct (fs_get_cases fs_dia n) as [[l [G I]]|[[pl G]|G]].
-    - cbn in I. intuition.
-    - right; right; right. intros o H. rewrite G in H. discriminate.
-    - right; right; right. intros o H. rewrite G in H. discriminate. }
-  destruct K as [K|[K|[K|K]]].
+  intros n m K E.
+  destruct K as [K|[K|K]].
   - subst n. edge_inv E; left; split; auto.
   - subst n. edge_inv E; right; split; auto.
   - subst n. edge_inv E.
-  - destruct E as [objs [x [G _]]]. exfalso. eapply K; eauto.
 Qed.
 
 Lemma ex_dia_acyclic : acyclic_from fs_dia cwd_x (nrm cwd_x pa).
@@ -71,17 +65,17 @@ Proof.
   intros c CH.
   destruct c as [|m c]. repeat constructor; intros [].
   change (edge fs_dia cwd_x pa m /\ chain fs_dia cwd_x (m :: c)) in CH. destruct CH as [E CH].
-  apply ex_dia_edges in E. destruct E as [[_ E]|[E _]]; [subst m|vm_compute in E; discriminate].
+  apply ex_dia_edges in E; auto. destruct E as [[_ E]|[E _]]; [subst m|vm_compute in E; discriminate].
   destruct c as [|m c].
   { constructor. intros [H|[]]. vm_compute in H. discriminate. repeat constructor; intros []. }
   change (edge fs_dia cwd_x pb m /\ chain fs_dia cwd_x (m :: c)) in CH. destruct CH as [E CH].
-  apply ex_dia_edges in E. destruct E as [[E _]|[_ E]]; [vm_compute in E; discriminate|subst m].
+  apply ex_dia_edges in E; auto. destruct E as [[E _]|[_ E]]; [vm_compute in E; discriminate|subst m].
   destruct c as [|m c].
   { constructor. intros [H|[H|[]]]; vm_compute in H; discriminate.
     constructor. intros [H|[]]; vm_compute in H; discriminate.
     repeat constructor; intros []. }
   change (edge fs_dia cwd_x pc m /\ chain fs_dia cwd_x (m :: c)) in CH. destruct CH as [E CH].
-  apply ex_dia_edges in E. destruct E as [[E _]|[E _]]; vm_compute in E; discriminate.
+  apply ex_dia_edges in E; auto. destruct E as [[E _]|[E _]]; vm_compute in E; discriminate.
 Qed.
 
 Lemma ex_cyc_cyclic : cyclic_from fs_cyc cwd_x (nrm cwd_x pa).
@@ -103,3 +97,12 @@ Proof.
     destruct IHR as [K|[K|K]]; subst n; edge_inv H; auto. }
   destruct K as [K|[K|K]]; subst n; eexists; eexists; split; vm_compute; reflexivity.
 Qed.
+
+(* "//r/sub/b.phil" is the file /r/sub/b.phil under another name: the stack holds names, so the
+   cycle a -> b -> a is noticed one round later, and the report says so *)
+Definition fs_ds : fsys :=
+  [(pa, FObjs [inc "//r/sub/b.phil"]); (pb, FObjs [inc "../a.phil"])].
+Lemma ex_dslash :
+  includes_file isc0 fs_ds cwd_x pa =
+  UErr k_cycle (s_ "/r/a.phil, //r/sub/b.phil, //r/a.phil, //r/sub/b.phil") 0.
+Proof. vm_compute. reflexivity. Qed.
